@@ -415,7 +415,68 @@ def r12(ctx):
         ctx.ob('C03.R12', fn, c, not armed, 'drain of the request queue', 'device arbitration reset on every path behind the drain: %s' % (not armed))
 
 
+def initial_state_rule(ctx, rid):
+    ctx.rule(rid, 'the bus handler starts without signal: the constructor of DirectProtocolHandler initialises m_state with the '
+             'state under which setState drains the request queue (signal lost), so that nothing is taken as part of a telegram '
+             'and no arbitration is started before the first SYN was seen', minimum=1)
+    fb = ctx.fb
+    fn = fb.fn(A.SS)
+    pops = [c for c in fn.all('CXXMemberCallExpr') if (fn.nodes[c].get('callee') or '').endswith('::pop') and
+            'm_nextRequests' in fn.key(fn.nodes[c].get('obj', -1))]
+    st = fn.P(0)
+    vals = set()
+    import re
+    for c in pops:
+        for a in fn.atoms(c):
+            m = re.match(r'^\(%s == #(\d+)\)$' % re.escape(st), a[0])
+            if m and a[1]:
+                vals.add(int(m.group(1)))
+    if len(vals) != 1:
+        raise AnalysisBroken('%s: the no-signal state of setState not identified (%s)' % (rid, sorted(vals)))
+    nosig = vals.pop()
+    ctors = [f for f in fb.functions if f.name == 'ebusd::DirectProtocolHandler::DirectProtocolHandler' and
+             any(i.get('member') == 'm_state' for i in f.inits)]
+    if not ctors:
+        raise AnalysisBroken('%s: constructor initialiser of m_state not found' % rid)
+    f = ctors[0]
+    ctx.touch(f)
+    for i in f.inits:
+        if i.get('member') == 'm_state':
+            v = f.val(i['init'])
+            ctx.ob(rid, f, i['init'], v == nosig, 'initial bus state', 'm_state starts as %s, the no-signal state is %s' % (v, nosig))
+
+
+def r14(ctx):
+    ctx.rule('C03.R14', 'the number of masters that determines the automatic lock counter includes ebusd itself whenever it takes '
+             'part: the constructor initialiser of m_masterCount for a handler that is not read-only equals the value '
+             'ProtocolHandler::clear() resets it to (both describe "no other master seen yet")', minimum=1)
+    fb = ctx.fb
+    clr = fb.fn('ebusd::ProtocolHandler::clear')
+    ctx.touch(clr)
+    rv = [clr.val(rhs) for nid, d, rhs, op, lhs in clr.assignments() if d == 'this.m_masterCount' and op == '=' and rhs is not None]
+    ctors = [f for f in fb.functions if f.name == 'ebusd::ProtocolHandler::ProtocolHandler' and
+             any(i.get('member') == 'm_masterCount' for i in f.inits)]
+    if len(rv) != 1 or rv[0] is None or not ctors:
+        raise AnalysisBroken('C03.R14: reset value (%s) or constructor initialiser of m_masterCount not found' % rv)
+    f = ctors[0]
+    ctx.touch(f)
+    for i in f.inits:
+        if i.get('member') != 'm_masterCount':
+            continue
+        x = f.strip(i['init'], casts=True)
+        v = f.nodes[x]
+        if v['k'] == 'ConditionalOperator' and 'readOnly' in f.key(v['cond']):
+            ck = f.key(v['cond'])
+            neg = ck.startswith('!') or ck.startswith('(!')
+            active = f.val(v['then'] if neg else v['else'])
+        else:
+            active = f.val(x)
+        ctx.ob('C03.R14', f, i['init'], active == rv[0], 'initial master count', 'an active handler starts with %s, clear() resets to %s' % (active, rv[0]))
+
+
 def run(ctx):
+    r14(ctx)
+    initial_state_rule(ctx, 'C03.R15')
     r1(ctx)
     r2(ctx)
     r3(ctx)
@@ -433,3 +494,8 @@ def run(ctx):
     c15.fresh_answer_rule(ctx, 'C03.R10')
     r11(ctx)
     r12(ctx)
+    import rules.C14 as c14
+    ctx.borrow(c14.run, {'C14.R4': 'C03.R13'},
+               'the arbitration result of the enhanced device (STARTED/FAILED) must reach the protocol handler: a result that '
+               'is deferred behind a received symbol has to stay in the buffer, or a lost arbitration is never seen and ebusd '
+               'sends on')
